@@ -1,7 +1,7 @@
 (* Properties/C10.v -- escaping filters neutralise markup for every input and are
    invertible.  Statements only; each is closed by a lemma of Proofs/FiltersProofs.v.
    All quantify over every string (list of code points), no bound on length. *)
-From MakoV Require Import Lib.Str Lib.Utf8 Gen.Unicode Gen.Filters Model.Filters Proofs.FiltersProofs.
+From MakoV Require Import Lib.Str Lib.Utf8 Gen.Unicode Gen.Filters Model.Filters Proofs.FiltersProofs Proofs.FiltersOwnDecoder.
 Open Scope N_scope.
 
 (* x: never raises; output has none of the four markup characters (less-than, greater-than,
@@ -77,6 +77,17 @@ Theorem C10_handler_replacement_decodes_back : forall c, 128 <= c -> c < 1114112
   exists rep, entity_escape_full [c] = Some rep /\ spec_replacement c rep = true.
 Proof. exact handler_replacement. Qed.
 Print Assumptions C10_handler_replacement_decodes_back.
+
+(* ... and the library's own decoder, html_entities_unescape, maps it back too (the numeric references are written
+   with upper-case hexadecimal digits, which that decoder did not read before fix 36ccec6) *)
+Theorem C10_handler_replacement_own_decoder : forall c, 128 <= c -> c < 1114112 ->
+  exists rep, entity_escape_full [c] = Some rep /\ html_entities_unescape rep = Some [c].
+Proof. exact handler_replacement_own_decoder. Qed.
+Print Assumptions C10_handler_replacement_own_decoder.
+
+Theorem C10_unescape_numeric_ref : forall c, c < 1114112 -> html_entities_unescape (numeric_ref c) = Some [c].
+Proof. exact unescape_numeric_ref. Qed.
+Print Assumptions C10_unescape_numeric_ref.
 
 (* non-vacuity: the hypotheses are met by non-trivial inputs, and the conclusions are
    not trivially true (a wrong output fails the predicates) *)
